@@ -390,7 +390,7 @@ class IfExpressionParser:
 
     def __init__(self):
         # create parsing grammer
-        sQStringLiteral = pyparsing.QuotedString("'")
+        sQStringLiteral = pyparsing.QuotedString("'", convert_whitespace_escapes=False)
         sQStringLiteral.set_parse_action(
             lambda s, loc, toks: StringLiteral(s, loc, toks, False))
 
